@@ -33,6 +33,7 @@ import (
 	"github.com/dfklegend/cell2/node/service"
 	"github.com/dfklegend/cell2/utils/common"
 	"github.com/dfklegend/cell2/utils/logger"
+	cetimer "github.com/dfklegend/cell2/utils/timer"
 
 	mmocommon "mmo/common"
 	"mmo/common/define"
@@ -70,6 +71,41 @@ type env struct {
 	seq     [nAccts + 2]int           // per-account login counter
 	open    [nAccts + 2]map[int]int64 // per account: login request -> issue time, while unanswered
 	pr      *probeT
+
+	// cases started by `reset timer=1` run with the real 1 s timer of PlayerMgr.Start (time passes with
+	// `advt`, every firing on the way calls update); the other cases call update explicitly (`tick`)
+	timer    bool
+	timerIds []cetimer.IdType // what Start registered, cancelled at the next reset
+}
+
+// timerSet: the ids of the timers registered with the service's timer manager (the only sync.Map field of
+// timer.Mgr, located by type); ok=false when that shape is gone: timer cases are then not generated.
+func timerSet(tm *cetimer.Mgr) (map[cetimer.IdType]bool, bool) {
+	idx := one(fieldsOf(reflect.TypeOf(cetimer.Mgr{}), ofType(reflect.TypeOf(sync.Map{}))))
+	if idx < 0 {
+		return nil, false
+	}
+	m, ok := fld(reflect.ValueOf(tm), idx).Addr().Interface().(*sync.Map)
+	if !ok {
+		return nil, false
+	}
+	ids := map[cetimer.IdType]bool{}
+	good := true
+	m.Range(func(k, _ interface{}) bool {
+		id, isId := k.(cetimer.IdType)
+		if !isId {
+			good = false
+			return false
+		}
+		ids[id] = true
+		return true
+	})
+	return ids, good
+}
+
+func (e *env) timerOK() bool {
+	_, ok := timerSet(e.svc.GetRunService().GetTimerMgr())
+	return ok
 }
 
 func (e *env) wait() { synctest.Wait() }
@@ -174,7 +210,7 @@ func deserialize(req *messages.ServiceRequest) (interface{}, error) {
 
 // reset: answer what is still outstanding (callbacks of the old case are ignored
 // through caseNo), then a fresh PlayerMgr on the same service.
-func (e *env) reset() {
+func (e *env) reset(withTimer bool) {
 	e.mu.Lock()
 	pend := e.pending
 	e.pending = nil
@@ -184,7 +220,25 @@ func (e *env) reset() {
 		e.system.Root.Send(p.req.Sender, &messages.ServiceResponse{ReqId: p.req.ReqId})
 	}
 	e.wait()
-	e.onSvc(func() { e.mgr = center.NewPlayerMgr(e.svc.NodeService) })
+	e.onSvc(func() {
+		tm := e.svc.GetRunService().GetTimerMgr()
+		for _, id := range e.timerIds {
+			tm.Cancel(id)
+		}
+		e.timerIds = nil
+		e.mgr = center.NewPlayerMgr(e.svc.NodeService)
+		e.timer = false
+		if before, ok := timerSet(tm); withTimer && ok {
+			e.mgr.Start()
+			after, _ := timerSet(tm)
+			for id := range after {
+				if !before[id] {
+					e.timerIds = append(e.timerIds, id)
+				}
+			}
+			e.timer = true
+		}
+	})
 	e.mu.Lock()
 	e.kicks, e.offs, e.acks = nil, nil, nil
 	e.seq = [nAccts + 2]int{}
@@ -501,7 +555,7 @@ func (e *env) exec(op string) string {
 		return "bad-op"
 	}
 	if ws[0] == "reset" {
-		e.reset()
+		e.reset(hx.KVInt(ws, "timer") == 1)
 		return "ok" + e.snapshot()
 	}
 	if e.mgr == nil {
@@ -509,7 +563,7 @@ func (e *env) exec(op string) string {
 	}
 	uid := int64(hx.KVInt(ws, "u"))
 	switch ws[0] {
-	case "tick", "adv":
+	case "tick", "adv", "advt":
 	case "login", "closed", "logined", "reonline", "logoutreq", "logoutdone", "abnormal", "swbegin", "swend", "offreply":
 		if uid < 1 || uid > nAccts {
 			return "bad-op"
@@ -621,7 +675,11 @@ func (e *env) exec(op string) string {
 		e.wait()
 	case "tick":
 		call(func() { e.mgr.VerifUpdate() })
-	case "adv":
+	case "adv", "advt":
+		// time passes either with the timer of PlayerMgr.Start running (advt) or without it (adv)
+		if e.timer != (ws[0] == "advt") {
+			return "bad-op"
+		}
 		if _, ok := hx.KV(ws, "ms"); !ok {
 			return "bad-op"
 		}
@@ -670,6 +728,8 @@ type gen struct {
 	dl       []int64 // armed limits (see deadlines)
 	last     string  // the implementation's last observation
 	afterAdv bool    // the previous op was a clock advance: probe the limits now
+	timer    bool    // this case runs with the 1 s timer of PlayerMgr.Start (advt instead of adv)
+	timerOK  bool    // the timer manager's shape is recognised (else no timer cases)
 }
 
 func (g *gen) uid() int {
@@ -747,6 +807,17 @@ func (g *gen) adv() string {
 		g.h.Count("adv.edge")
 	}
 	g.afterAdv = true
+	if g.timer {
+		if r.Intn(4) == 0 {
+			// land exactly on / just around a firing of the timer
+			ms = (g.now+ms)/1000*1000 + int64(r.Intn(3)) - 1 - g.now
+			if ms <= 0 {
+				ms = 1000 - g.now%1000
+			}
+			g.h.Count("adv.timer-edge")
+		}
+		return fmt.Sprintf("advt ms=%d", ms)
+	}
 	return fmt.Sprintf("adv ms=%d", ms)
 }
 
@@ -959,6 +1030,19 @@ func (g *gen) reach(op, prev, cur string) {
 			g.h.Count("reach.lock-taken-over-after-expiry")
 		}
 		sa := field(a, "st")
+		if opKind(op) == "advt" && (b == "-" || field(b, "st") == "-") {
+			switch {
+			case strings.HasPrefix(sa, "Logining"):
+				g.h.Count("reach.timer-expired-Logining")
+			case strings.HasPrefix(sa, "Logouting"):
+				g.h.Count("reach.timer-expired-Logouting")
+			case strings.HasPrefix(sa, "WaitRemove"):
+				g.h.Count("reach.timer-removed-WaitRemove")
+			}
+		}
+		if opKind(op) == "advt" && b != "-" && field(b, "st") != "-" && (strings.HasPrefix(sa, "Logining") || strings.HasPrefix(sa, "Logouting")) {
+			g.h.Count("reach.timer-kept-unexpired")
+		}
 		if opKind(op) == "tick" && (b == "-" || field(b, "st") == "-") {
 			switch {
 			case strings.HasPrefix(sa, "Logining"):
@@ -997,6 +1081,17 @@ func (g *gen) newCase() {
 	for i := 0; i < nc; i++ {
 		g.conns = append(g.conns, [2]int{1 + r.Intn(2), 1 + i})
 	}
+	g.timer = g.timerOK && r.Intn(3) == 0
+	if g.timer {
+		g.h.Count("case.timer")
+	}
+}
+
+func (g *gen) resetOp() string {
+	if g.timer {
+		return "reset timer=1"
+	}
+	return "reset"
 }
 
 // ---------------------------------------------------------------- test entry points
@@ -1007,6 +1102,9 @@ func emit(h *hx.T, e *env, op string) string {
 	obs := e.exec(op)
 	if ws := hx.Words(op); len(ws) > 0 && ws[0] == "reset" {
 		op = "reset"
+		if e.timer {
+			op += " timer=1"
+		}
 		if u := e.pr.unresList(); u != "" {
 			op += " unres=" + u
 			for _, k := range strings.Split(u, ",") {
@@ -1043,11 +1141,14 @@ func TestRun(t *testing.T) {
 			h.Count("corpus")
 			run(op)
 		}
-		g := &gen{h: h}
+		g := &gen{h: h, timerOK: e.timerOK()}
+		if !g.timerOK {
+			h.Count("probe.unresolved.timer")
+		}
 		n := hx.EnvInt("VERIF_N", 1500)
 		for i := 0; i < n; i++ {
 			g.newCase()
-			run("reset")
+			run(g.resetOp())
 			l := 6 + h.R.Intn(20)
 			for j := 0; j < l; j++ {
 				op := g.op()
@@ -1150,6 +1251,9 @@ func (e *env) stateKey() string {
 		if !un["N"] {
 			sb.WriteString("N" + fut(fld(e.kwMgr(), e.pr.nextCheck).Int()))
 		}
+		if e.timer {
+			fmt.Fprintf(&sb, "|phase%d", (now-e.t0)%1000)
+		}
 	})
 	return sb.String()
 }
@@ -1160,6 +1264,13 @@ var reachAlphabet = []string{
 	"tick", "adv ms=1", "adv ms=2999", "adv ms=30000", "adv ms=119999", "adv ms=179999", "adv ms=299999", "adv ms=1799999",
 }
 
+// with the timer: no explicit tick is needed; advances that stop just before / on / after a firing
+var reachAlphabetT = []string{
+	"login u=1 f=1 n=1 k=1", "login u=1 f=2 n=2 k=1", "closed u=1", "logined u=1 lg=1",
+	"reonline u=1", "logoutreq u=1", "logoutdone u=1", "abnormal u=1", "swbegin u=1", "swend u=1 ok=1", "offreply u=1 ok=1",
+	"advt ms=1", "advt ms=999", "advt ms=1000", "advt ms=119000", "advt ms=119999", "advt ms=179999", "advt ms=1799000", "advt ms=1799999",
+}
+
 // TestReachable: breadth-first over the states of 1 account x 2 connections; every op of the
 // alphabet is tried from every distinct state found (one representative history per state), down
 // to VERIF_DEPTH or until VERIF_MAXOPS op lines have been produced.  Every executed history is
@@ -1168,8 +1279,17 @@ func TestReachable(t *testing.T) {
 	bubble(t, func(e *env, h *hx.T) {
 		depth := hx.EnvInt("VERIF_DEPTH", 6)
 		maxOps := hx.EnvInt("VERIF_MAXOPS", 300000)
+		// VERIF_TIMER=1: the same search with the 1 s timer of PlayerMgr.Start running (advt for adv)
+		resetOp, reachAlphabet := "reset", reachAlphabet
+		if hx.EnvInt("VERIF_TIMER", 0) == 1 && e.timerOK() {
+			resetOp = "reset timer=1"
+			reachAlphabet = nil
+			for _, a := range reachAlphabetT {
+				reachAlphabet = append(reachAlphabet, a)
+			}
+		}
 		seen := map[string]bool{}
-		emit(h, e, "reset")
+		emit(h, e, resetOp)
 		seen[e.stateKey()] = true
 		frontier := [][]string{{}}
 		done := 0
@@ -1182,7 +1302,7 @@ func TestReachable(t *testing.T) {
 					break
 				}
 				for _, a := range reachAlphabet {
-					emit(h, e, "reset")
+					emit(h, e, resetOp)
 					for _, op := range seq {
 						emit(h, e, op)
 					}
